@@ -52,7 +52,8 @@ func c14Requests() []c14Req {
 	c5.ImportPathOverrides = map[string]string{"vx": "example.com/elsewhere/vx", "vx/tfx": "verif/tfx", "vx/tfx/deep": "example.com/deep/one", "vx/other": "example.com/other"}
 	c5.Validators["Delta.Only"] = []string{"vx/tfx.V(40)", "vx/tfx/deep.Check()", "vx.Top()"}
 	c5.PlanModifiers["Gamma.KS"] = []string{"vx/tfx.PM(41)", "vx/other.Mod()"}
-	c5.Computed = append(c5.Computed, "Shared.Label", "Beta.Count")
+	// (deep path entries whose ancestors are not computed themselves)
+	c5.Computed = append(c5.Computed, "Shared.Label", "Beta.Count", "Gamma.Deep.Inner.Tiny.On", "Delta.Nested.Meta.Tiny.low_n", "Alpha.Items.Tiny.N")
 	c5.PlanModifiers["Shared.Label"] = []string{dsl.TFX + ".PM(7)", usu, dsl.TFX + ".PM(8)"}
 	c5.PlanModifiers["Beta.Count"] = []string{usu, usu, dsl.TFX + ".PM(9)", dsl.TFX + ".PM(10)", dsl.TFX + ".PM(9)"}
 	c5.Validators["Gamma.KT"] = []string{dsl.TFX + ".V(7)", dsl.TFX + ".V(8)", dsl.TFX + ".V(7)", dsl.TFX + ".V(9)"}
@@ -254,8 +255,31 @@ func checkC14(r *Run) int {
 				}
 				return &gExec{Label: fmt.Sprintf("%s param types=%v computed=%v", rq.name, tp, cp), FD: rq.fd, YAML: rq.cfg.YAML(nil, only), Param: "types=" + strings.Join(t, "+") + ",computed_fields=" + strings.Join(c, "+")}
 			}
-			idT := permutations(len(rq.cfg.Types))
-			idC := permutations(len(rq.cfg.Computed))
+			// all permutations of short lists; rotations and the reverse of longer ones
+			permsOf := func(n int) [][]int {
+				if n <= 5 {
+					return permutations(n)
+				}
+				id := make([]int, n)
+				for i := range id {
+					id[i] = i
+				}
+				out := [][]int{id}
+				for s := 1; s < n; s++ {
+					p := make([]int, n)
+					for i := range p {
+						p[i] = (i + s) % n
+					}
+					out = append(out, p)
+				}
+				rev := make([]int, n)
+				for i := range rev {
+					rev[i] = n - 1 - i
+				}
+				return append(out, rev)
+			}
+			idT := permsOf(len(rq.cfg.Types))
+			idC := permsOf(len(rq.cfg.Computed))
 			refParam = mkp(idT[0], idC[0])
 			for _, tp := range idT {
 				for _, cp := range idC {
